@@ -79,6 +79,9 @@ class Pages(Files):
         ):
             filepath += ".html"
             stat_result, is_file = self.check_path_is_file(filepath)
+            if not is_file:
+                # only a regular file can stand in for the missing path
+                stat_result = None
         elif (
             stat_result is not None
             and filepath is not None
@@ -88,6 +91,8 @@ class Pages(Files):
             # a directory URL that already ends with "/" serves the index page
             filepath = os.path.join(filepath, "index.html")
             stat_result, is_file = self.check_path_is_file(filepath)
+            if not is_file:
+                stat_result = None
 
         if stat_result is not None:
             assert filepath is not None  # Just for type check
